@@ -564,7 +564,17 @@ def _patho_more(r, c, n):
                          "ENTITY e;\n x : INTEGER;\nUNIQUE\n %s : x;\nEND_ENTITY;\n", "ENTITY e;\n x : e;\nINVERSE\n %s : e FOR x;\nEND_ENTITY;\n",
                          "RULE %s FOR (e);\nWHERE\n w : TRUE;\nEND_RULE;\nENTITY e;\nEND_ENTITY;\n", "PROCEDURE %s;\nEND_PROCEDURE;\n",
                          "FUNCTION f (a : LIST OF INTEGER) : INTEGER;\nREPEAT %s := 1 TO 2;\nEND_REPEAT;\nRETURN (SIZEOF(QUERY(%s <* a | TRUE)));\nEND_FUNCTION;\n",
-                         "FUNCTION f (a : LIST OF INTEGER) : INTEGER;\nALIAS %s FOR a;\nEND_ALIAS;\nRETURN (1);\nEND_FUNCTION;\n", "USE FROM other (%s);\n", "REFERENCE FROM other (x AS %s);\n"])
+                         "FUNCTION f (a : LIST OF INTEGER) : INTEGER;\nALIAS %s FOR a;\nEND_ALIAS;\nRETURN (1);\nEND_FUNCTION;\n", "USE FROM other (%s);\n", "REFERENCE FROM other (x AS %s);\n",
+                         # ... and where a name is REFERRED to
+                         "ENTITY e ABSTRACT SUPERTYPE OF (%s);\nEND_ENTITY;\n", "ENTITY e SUPERTYPE OF (ONEOF (%s, e2));\nEND_ENTITY;\nENTITY e2 SUBTYPE OF (e);\nEND_ENTITY;\n",
+                         "ENTITY e SUBTYPE OF (%s);\nEND_ENTITY;\n", "ENTITY e;\n a : %s;\nEND_ENTITY;\n", "ENTITY e;\n a : LIST OF %s;\nEND_ENTITY;\n",
+                         "TYPE t = SELECT (%s);\nEND_TYPE;\n", "TYPE t = %s;\nEND_TYPE;\n", "USE FROM %s;\n", "REFERENCE FROM %s (x);\n", "USE FROM other (%s AS y);\n",
+                         "ENTITY e;\n x : e;\nINVERSE\n i : %s FOR x;\nEND_ENTITY;\n", "ENTITY e;\n x : e;\nINVERSE\n i : e FOR %s;\nEND_ENTITY;\n",
+                         "ENTITY e;\n x : INTEGER;\nUNIQUE\n u : %s;\nEND_ENTITY;\n", "ENTITY e;\n x : INTEGER;\nEND_ENTITY;\nENTITY e2 SUBTYPE OF (e);\nDERIVE\n SELF\\%s.x : INTEGER := 1;\nEND_ENTITY;\n",
+                         "ENTITY e;\n x : INTEGER;\nEND_ENTITY;\nENTITY e2 SUBTYPE OF (e);\nDERIVE\n SELF\\e.%s : INTEGER := 1;\nEND_ENTITY;\n",
+                         "RULE r FOR (%s);\nWHERE\n w : TRUE;\nEND_RULE;\n", "FUNCTION f (a : INTEGER) : INTEGER;\nRETURN (%s(a));\nEND_FUNCTION;\n",
+                         "FUNCTION f (a : INTEGER) : INTEGER;\n%s(a);\nRETURN (1);\nEND_FUNCTION;\n", "FUNCTION f (a : e) : INTEGER;\nRETURN (a.%s);\nEND_FUNCTION;\nENTITY e;\n x : INTEGER;\nEND_ENTITY;\n",
+                         "FUNCTION f (a : e) : INTEGER;\nRETURN (a\\%s.x);\nEND_FUNCTION;\nENTITY e;\n x : INTEGER;\nEND_ENTITY;\n"])
         head = "SCHEMA %s;\n" % (nm if r.random() < 0.1 else "patho")
         return head + form.replace("%s", nm) + "END_SCHEMA;\n" + ("SCHEMA other;\nENTITY x;\nEND_ENTITY;\nEND_SCHEMA;\n" if "other" in form else "")
     if c == "escape-heavy":
